@@ -306,6 +306,16 @@ def run(tier: str) -> int:
         d = [None, np.full(n, -3)][k % 2]
         rep.count(("rand-se", k))
         check_search(rep, a, [rc] * n, req, d, want, {"what": f"random n={n} rc={rc} filter={fkey}", "positions": a.positions.tolist()})
+        # the same bonds through ONE global cutoff distance (a plain float, and an int where 2 rc is one): bonds through
+        # the periodic faces of the cell count as they do for radii
+        rep.count(("rand-se-global", k))
+        check_search(rep, a, 2 * rc, req, d, want, {"what": f"random n={n} global cutoff {2 * rc} filter={fkey}", "positions": a.positions.tolist()})
+        if k % 4 == 0:
+            pairs2 = [(i, j) for i in range(n) for j in range(i + 1, n) if dm[i, j] < 2]
+            i2, j2 = neighbor_list("ij", a, cutoff=2, self_interaction=False)
+            if {(min(x, y), max(x, y)) for x, y in zip(i2, j2)} == set(pairs2):
+                comps2 = union_find_labels(n, pairs2)
+                check_search(rep, a, 2, req, d, [g for g in comps2 if lo <= len(g) <= hi], {"what": f"random n={n} global integer cutoff 2 filter={fkey}", "positions": a.positions.tolist()})
     nswap = swap_layer(rep, rs, 60 if tier == "quick" else 600)
     rep.add(rejected_delete_and_insert_trials=nswap)
     rep.add(states=r.distinct, transitions=r.generated, traces_validated_against_impl=nre + nse, exhaustive=True, reinsert_cases=nre, search_cases=nse, random_cases=2 * nrand,
